@@ -7,6 +7,7 @@ own persistent streams -> this driver).
 
 ops:
   fmt bpp depth be tc rmax gmax bmax rs gs bs      pixel format the client asked for
+  cpix rfc|defacto                                 CPIXEL rule used by `dec` for ZRLE (default: RFC)
   dec ENC W H PAYLOADHEX [STILLHEX]                spec-decode one rectangle payload (compressed
                                                    chunks already inflated, `inflate := id`);
                                                    STILLHEX = pixels of a JPEG/PNG image decoded by
@@ -16,11 +17,13 @@ ops:
                                                    the snapshot -> "bytes HEX" | "raw" (fallback)
   split corre MW MH x y w h [x y w h ...]          rfbSendRectEncodingCoRRE's splitting of the given
                                                    rectangles -> "rects x,y,w,h ..."
+  split zlib x y w h [x y w h ...]                 row splitting of zlib.c / ultra.c
 -/
 open VncModel VncModel.Proto VncModel.Enc VncModel.Enc.Spec
 
 structure DState where
   fmt : PixFmt := ⟨32, 24, false, true, 255, 255, 255, 16, 8, 0⟩
+  deFacto : Bool := false
 
 def pixelsOfHex (bpp : Nat) (s : String) : Option (List Pixel) :=
   match unhex? s with
@@ -42,6 +45,7 @@ def dstep (s : DState) (toks : List String) : DState × List String :=
     | some [bpp, depth, be, tc, rm, gm, bm, rs, gs, bs] =>
       ({ s with fmt := ⟨bpp, depth, be != 0, tc != 0, rm, gm, bm, rs, gs, bs⟩ }, ["ok"])
     | _ => (s, ["bad-op"])
+  | ["cpix", mode] => ({ s with deFacto := mode == "defacto" }, ["ok"])
   | "dec" :: enc :: w :: h :: payload :: more =>
     match enc.toNat?, w.toNat?, h.toNat?, unhex? payload with
     | some enc, some w, some h, some bs =>
@@ -49,7 +53,7 @@ def dstep (s : DState) (toks : List String) : DState × List String :=
         | [st] => pixelsOfHex s.fmt.bytespp st
         | _ => none
       let cd : Codecs := { still := { jpeg := fun _ _ => still, png := fun _ _ => still,
-                                      allowNoZlib := true } }
+                                      allowNoZlib := true }, cpixDeFacto := s.deFacto }
       match decodeRect cd s.fmt enc ⟨w, h⟩ bs with
       | some (px, rest) => (s, [s!"px {rest.length} {hexOfPixels s.fmt.bytespp px}"])
       | none => (s, ["err"])
@@ -71,6 +75,15 @@ def dstep (s : DState) (toks : List String) : DState × List String :=
       let rs := go l
       (s, ["rects " ++ " ".intercalate (rs.map fun r => s!"{r.x},{r.y},{r.w},{r.h}")])
     | _, _, _ => (s, ["bad-op"])
+  | "split" :: "zlib" :: rest =>
+    match natList? rest with
+    | some l =>
+      let rec goz : List Nat → List TileRect
+        | x :: y :: w :: h :: more =>
+          (if w = 0 then [] else Server.zlibSplit x w (Server.zlibMaxSize w / w) (h + 1) y h) ++ goz more
+        | _ => []
+      (s, ["rects " ++ " ".intercalate ((goz l).map fun r => s!"{r.x},{r.y},{r.w},{r.h}")])
+    | none => (s, ["bad-op"])
   | _ => (s, ["bad-op"])
 
 def main : IO Unit := runDriver ({} : DState) dstep
